@@ -229,7 +229,9 @@ def run_shard(args):
     rf = '%s/shard%d.resolved' % (work, idx)
     open(rf, 'w').write('\n'.join(resolved) + '\n')
     # extracted list functions are not tail recursive: large archives need a deep stack
-    rc, out2, err2 = sh(['bash', '-c', 'ulimit -s $(ulimit -Hs) 2>/dev/null; exec "$0" "$1"', V + '/ocaml/_build/wtmodel', rf], timeout=timeout)
+    # (and a large minor heap: every minor collection scans the whole stack, which makes deep recursions quadratic)
+    rc, out2, err2 = sh(['bash', '-c', 'ulimit -s $(ulimit -Hs) 2>/dev/null; exec "$0" "$1"', V + '/ocaml/_build/wtmodel', rf], timeout=timeout,
+                        env=dict(os.environ, OCAMLRUNPARAM='s=16M'))
     t2 = time.time()
     if rc != 0:
         return {'error': 'model rc=%d: %s' % (rc, err2[-2000:]), 'impl': impl, 'model': []}
